@@ -693,6 +693,9 @@ def run(ctx):
         'negative values, names equal up to case, empty body; lenient unknown-name histories (known finding) separately; mask helpers: the package '
         'helpers and the decorator re-applied (also after the enum has a history), synthetic offset/predicate/define_bits/template-member '
         'combinations, all subsets of up to %d members as member objects / ints / names, to_values over all masks of the bit range. '
+        'Arguments also as held member objects / members of other enums / bool / numpy scalars; iterations left open during first encounters; several classes alive in one '
+        'interpreter with the full public view of each re-checked after operating on the others (incl. mask helper classes as enums, known-bit combinations); adapters declared '
+        'before and after the values were seen; members handed out earlier re-checked; aliasing checks on mask results; thorough: all 16-bit values + 700 on one class. '
         'A case is distinct by (operation, argument, outcome kind, history family).' %
         (len(enums), nhist, len(EXTRA_VALUES), 'whole 16-bit range in 32 slices' if ctx.thorough else 'member neighbourhoods + 1500 random 16-bit values', 10))
     ctx.coverage['exhaustive'] = True
